@@ -66,28 +66,56 @@ Print Assumptions C07_no_cleanup_on_error_refuted.
 
 (** every executor is handed what its request decodes to on a fresh object *)
 Theorem C07_in_flight_as_alone : forall reqs tr s,
-  prun_pool false (pinit reqs) tr = Some s ->
+  prun_pool as_written_pool (pinit reqs) tr = Some s ->
   Forall2 (fun r v => v = None \/ v = Some (alone_sees (fst r) (snd r))) reqs (seen_by s).
 Proof. exact pool_in_flight_as_alone_lemma. Qed.
 Print Assumptions C07_in_flight_as_alone.
 
+(** the same when operations panic (the clean-up is a deferred call, so it runs on that path too): each request,
+    given with "its operation panics", is still handed what it decodes to on a fresh object *)
+Theorem C07_in_flight_as_alone_with_panics : forall (reqs : list ((string * list member) * bool)) tr s,
+  prun_pool as_written_pool (pinit_f reqs) tr = Some s ->
+  Forall2 (fun r v => v = None \/ v = Some (alone_sees (fst (fst r)) (snd (fst r)))) reqs (seen_by s).
+Proof. exact pool_in_flight_as_alone_f_lemma. Qed.
+Print Assumptions C07_in_flight_as_alone_with_panics.
+
 (** and no request is ever stuck *)
 Theorem C07_in_flight_progress : forall reqs tr s i t,
-  prun_pool false (pinit reqs) tr = Some s -> nth_error (ps_thr s) i = Some t -> pt_pc t <> PDone ->
-  pstep false s i None <> None.
+  prun_pool as_written_pool (pinit reqs) tr = Some s -> nth_error (ps_thr s) i = Some t -> pt_pc t <> PDone ->
+  pstep as_written_pool s i None <> None.
 Proof. exact pool_in_flight_progress_lemma. Qed.
 Print Assumptions C07_in_flight_progress.
 
 (** returning the object to the pool before its last use lets another request decode into it *)
 Theorem C07_put_before_last_use_refuted :
-  exists s, prun_pool true (pinit [("h1", [MText FQuery "{ a }"]); ("h2", [MText FQuery "{ b }"; MText FOpName "B"])])
+  exists s, prun_pool {| v_early_put := true; v_clean_on_panic := true; v_clean_on_decode_error := true |} (pinit [("h1", [MText FQuery "{ a }"]); ("h2", [MText FQuery "{ b }"; MText FOpName "B"])])
               [(0, None); (0, None); (1, Some 0); (1, None); (0, None)]%nat = Some s /\
             nth_error (seen_by s) 0 <> Some (Some (alone_sees "h1" [MText FQuery "{ a }"])).
 Proof. exact early_put_witness. Qed.
 Print Assumptions C07_put_before_last_use_refuted.
 
+(** a clean-up that is no deferred call is skipped when the operation panics: the next request inherits the failed
+    one's operation name *)
+Theorem C07_cleanup_skipped_on_panic_refuted :
+  exists s, prun_pool {| v_early_put := false; v_clean_on_panic := false; v_clean_on_decode_error := true |}
+              (pinit_f [(("h1", [MText FQuery "query Boom { a }"; MText FOpName "Boom"]), true); (("h2", [MText FQuery "{ a }"]), false)])
+              [(0, None); (0, None); (0, None); (0, None); (0, None); (1, Some 0); (1, None); (1, None)]%nat = Some s /\
+            nth_error (seen_by s) 1 <> Some (Some (alone_sees "h2" [MText FQuery "{ a }"])).
+Proof. exact cleanup_skipped_on_panic_witness. Qed.
+Print Assumptions C07_cleanup_skipped_on_panic_refuted.
+
+(** a clean-up skipped on the early return for a body that does not decode: a member of the wrong type is reported
+    only after the other members were stored, and the next request inherits them *)
+Theorem C07_cleanup_skipped_on_decode_error_refuted :
+  exists s, prun_pool {| v_early_put := false; v_clean_on_panic := true; v_clean_on_decode_error := false |}
+              (pinit [("h1", [MText FQuery "{ b }"; MWrongType FVariables]); ("h2", [MObject FExtensions [("k", "v")]])])
+              [(0, None); (0, None); (0, None); (0, None); (0, None); (1, Some 0); (1, None); (1, None)]%nat = Some s /\
+            nth_error (seen_by s) 1 <> Some (Some (alone_sees "h2" [MObject FExtensions [("k", "v")]])).
+Proof. exact cleanup_skipped_on_decode_error_witness. Qed.
+Print Assumptions C07_cleanup_skipped_on_decode_error_refuted.
+
 Example C07_in_flight_nonvacuous :
-  exists s, prun_pool false (pinit [("h1", [MText FQuery "{ a }"]); ("h2", [MText FQuery "{ b }"; MText FOpName "B"])])
+  exists s, prun_pool as_written_pool (pinit [("h1", [MText FQuery "{ a }"]); ("h2", [MText FQuery "{ b }"; MText FOpName "B"])])
               [(0, None); (0, None); (1, None); (0, None); (0, None); (0, None); (1, None); (1, None); (1, None); (1, None)]%nat = Some s /\
             seen_by s = [Some (alone_sees "h1" [MText FQuery "{ a }"]); Some (alone_sees "h2" [MText FQuery "{ b }"; MText FOpName "B"])].
 Proof. exact in_flight_runs. Qed.
